@@ -119,20 +119,25 @@ theorem PL_extrasLines (es : List (Str × Str)) : ∀ (ls : List (List Nat)),
     rw [extrasLines_cons] at hl
     obtain ⟨hk, ht⟩ := h (k, t) (by simp)
     rcases List.mem_append.mp hl with hl | hl
-    · exact PL_block (fun c hc => isPrint_of_upper ((extraKey_facts hk).1.2.2 c hc)) (PL_isText ht) _ l hl
+    · exact PL_block (fun c hc => (isVisible_facts ((extraKey_facts hk).1.2.2.1 c hc)).2.2) (PL_isText ht) _ l hl
     · exact ih ls.tail (fun x hx => h x (by simp [hx])) l hl
 
+theorem PL_wrapTextV (bs : List Nat) {t : Str} (h : PL t) : ∀ c ∈ wrapTextV bs t, PL c := by
+  intro c hc x hx
+  exact h x (by rw [← join_wrapAuxV bs 0 ' ' t]; exact mem_of_join_mem _ _ c hc x hx)
+
+theorem PL_cutTextV (bs : List Nat) {t : Str} (h : PL t) : ∀ c ∈ cutTextV bs t, PL c := by
+  intro c hc x hx
+  exact h x (by rw [← flatten_cutAuxV bs 0 ' ' t]; exact mem_of_mem_flatten_chunk _ c hc x hx)
+
 theorem PL_qualLines (k v : Str) (bs : List Nat) (st : Nat) (h : wfQual (k, v) = true) : ∀ l ∈ qualLines k v bs st, PL l := by
-  simp only [wfQual, Bool.and_eq_true, bne_iff_ne, ne_eq, List.all_eq_true] at h
-  obtain ⟨⟨_, hk⟩, hv⟩ := h
+  obtain ⟨_, hvp, _, _⟩ := wfQual_parts h
   have hkp : PL k := by
-    intro c hc; have := hk c hc
-    simp only [isQualKeyChar, Bool.or_eq_true, beq_iff_eq] at this
-    rcases this with (h | h) | h
-    · exact isPrint_of_letter h
-    · exact isPrint_of_digit h
-    · subst h; decide
-  have hvp : PL v := fun c hc => (hv c hc).1
+    simp only [wfQual, Bool.and_eq_true, List.all_eq_true] at h
+    intro c hc
+    have := h.1.1.1.2 c hc
+    simp only [isQualKeyChar, Bool.and_eq_true] at this
+    exact (isVisible_facts this.1.1.1).2.2
   have hhead : PL (spaces 21 ++ c!"/" ++ k) := PL_append (PL_append (PL_spaces 21) (by decide)) hkp
   unfold qualLines
   split
@@ -144,8 +149,8 @@ theorem PL_qualLines (k v : Str) (bs : List Nat) (st : Nat) (h : wfQual (k, v) =
       · exact PL_append hhead (by decide)
       · apply PL_closeLast
         unfold valueChunks; split
-        · exact PL_cutText bs hvp
-        · exact PL_wrapText bs hvp
+        · exact PL_cutTextV bs hvp
+        · exact PL_wrapTextV bs hvp
 
 theorem PL_qualsLines (qs : List (Str × Str)) : ∀ (ls : List (List Nat)) (sts : List Nat), (∀ q ∈ qs, wfQual q = true) →
     ∀ l ∈ qualsLines qs ls sts, PL l := by
@@ -164,21 +169,8 @@ theorem PL_featLines (f : RFeature) (ℓ : FeatLayout) (h : wfFeatureLoose f = t
   have hkp : PL f.key := by
     intro c hc
     simp only [wfFeatureLoose, Bool.and_eq_true, List.all_eq_true] at h
-    have := h.1.1.1.1.2 c hc
-    simp only [isFeatKeyChar, Bool.or_eq_true, beq_iff_eq] at this
-    rcases this with (((h | h) | h) | h) | h
-    · exact isPrint_of_letter h
-    · exact isPrint_of_digit h
-    · subst h; decide
-    · subst h; decide
-    · subst h; decide
-  have hlp : PL f.loc := by
-    intro c hc; have := h5 c hc
-    simp only [isLocChar, Bool.or_eq_true, beq_iff_eq] at this
-    rcases this with ((((((((h | h) | h) | h) | h) | h) | h) | h) | h) | h
-    · exact isPrint_of_letter h
-    · exact isPrint_of_digit h
-    all_goals (subst h; decide)
+    exact (isVisible_facts (h.1.1.1.1.2 c hc)).2.2
+  have hlp : PL f.loc := fun c hc => (isVisible_facts (h5 c hc)).2.2
   intro l hl
   simp only [featLines, List.mem_append] at hl
   rcases hl with hl | hl
